@@ -21,10 +21,18 @@ CLAUSES = ['logic-options', 'logic-lanes', 'wave-reuse', 'wave-strip', 'wave-gpu
 
 
 def make_case(rng, thorough=False):
-    c = circ.rand_circuit(rng, n_gates=rng.randint(1, 18 if not thorough else 50))
-    return {'circuit': base64.b64encode(pickle.dumps(c)).decode(), 'clause': rng.choice(CLAUSES), 'm': rng.choice([2, 4, 8]),
+    clause = rng.choice(CLAUSES)
+    if clause.startswith('wave') and rng.random() < 0.3:
+        c = circ.xor_tree(rng)          # long waveforms at the ports
+    else:
+        c = circ.rand_circuit(rng, n_gates=rng.randint(1, 18 if not thorough else 50), xor_bias=rng.choice([0.0, 0.0, 0.6]))
+    capsel = rng.choice([8, 16, 'skewed'])
+    if capsel == 'skewed':
+        k = len(c.s_nodes) + 2
+        capsel = [4 if i < k else rng.choice([16, 20, 24]) for i in range(len(c.lines) + 3)]
+    return {'circuit': base64.b64encode(pickle.dumps(c)).decode(), 'clause': clause, 'm': rng.choice([2, 4, 8]), 'capsel': capsel,
             'sseed': rng.randint(0, 2**31 - 1), 'dseed': rng.randint(0, 2**31 - 1), 'sims': rng.choice([3, 5, 8, 13]),
-            'caps': rng.choice([8, 16]), 'polind': rng.random() < 0.7, 'strip': rng.random() < 0.5, 'reuse': rng.random() < 0.5}
+            'caps': capsel, 'polind': rng.random() < 0.7, 'strip': rng.random() < 0.5, 'reuse': rng.random() < 0.5}
 
 
 def logic_run(c, m, stim, sims_alloc, strip, reuse):
@@ -42,6 +50,8 @@ def wave_run(c, delays, sims_alloc, i, t, f, caps, strip=False, reuse=False, cud
     n = i.shape[1]
     ws.s[0, :, :n] = i; ws.s[1, :, :n] = t; ws.s[2, :, :n] = f
     ws.s_to_c()
+    if multi_seed is not None:
+        wc.overwrite_inputs(ws, random.Random(multi_seed), p=0.6)
     if mode is not None:
         ws.simctl_int[1] = mode
         if simctl0 is not None: ws.simctl_int[0, :len(simctl0)] = simctl0
@@ -139,14 +149,14 @@ def eval_case(case):
     d0 = delays
     ref = wave_run(c, d0, sims, i, t, f, case['caps'])
     if cl == 'wave-reuse':
-        got = wave_run(c, d0, sims, i, t, f, case['caps'], strip=case['strip'], reuse=True)
-        exp = wave_run(c, d0, sims, i, t, f, case['caps'], strip=case['strip'], reuse=False)
+        got = wave_run(c, d0, sims, i, t, f, case['caps'], strip=case['strip'], reuse=True, multi_seed=case['sseed'])
+        exp = wave_run(c, d0, sims, i, t, f, case['caps'], strip=case['strip'], reuse=False, multi_seed=case['sseed'])
     elif cl == 'wave-strip':
         got = wave_run(c, d0, sims, i, t, f, case['caps'], strip=True, reuse=case['reuse'])
         exp = ref
     elif cl == 'wave-gpu':
-        got = wave_run(c, d0, sims, i, t, f, case['caps'], strip=case['strip'], reuse=case['reuse'], cuda=True)
-        exp = wave_run(c, d0, sims, i, t, f, case['caps'], strip=case['strip'], reuse=case['reuse'])
+        got = wave_run(c, d0, sims, i, t, f, case['caps'], strip=case['strip'], reuse=case['reuse'], cuda=True, multi_seed=case['sseed'])
+        exp = wave_run(c, d0, sims, i, t, f, case['caps'], strip=case['strip'], reuse=case['reuse'], multi_seed=case['sseed'])
         if not np.array_equal(np.array(got.c), np.array(exp.c)):
             return False, {'clause': cl, 'differs': 'signal memory c'}, {'equal': 'CPU path'}
     elif cl == 'wave-lanes':
